@@ -51,6 +51,8 @@ def observe(a):
         if len(c) > a.width:
             return None, f"row {i} is {len(c)} wide in an array of width {a.width}"
         grid.append(c + [BLANK] * (a.width - len(c)))
+    if not (len(a) == a.height == len(a.rows)) or tuple(a.shape) != (len(a.rows), a.width):
+        return None, f"len()={len(a)}, height={a.height}, shape={a.shape} for {len(a.rows)} rows of width {a.width}"
     return grid, None
 
 
